@@ -67,6 +67,8 @@ def _one_substance(si):
                     expect = F(0)
                 else:
                     expect = ref.convert_factor(rs, fu, tu)       # None: undefined (infinite density on the source side)
+                    if expect is None and bf == bt:
+                        expect = ref.SI[pf] / ref.SI[pt]          # a change of prefix only is the same for every substance
                 outs = []
                 for x in AMOUNTS:
                     n += 1
